@@ -109,8 +109,40 @@ def make_scenarios(rng, tier, focus, count):
         sched = {"seed": rng.randrange(1 << 30), "codes": codes, "fail_launch": fl,
                  "p_exit": rng.choice([0.1, 0.25, 0.6, 0.9]), "p_deliver": rng.choice([0.15, 0.5, 0.9]),
                  "allow_steal": focus == "reap"}
+        if k % 5 == 4:
+            # mixed batch: several parallel roots exit (some failing, some not) before ONE handler run reaps them all; each
+            # root has its own dependent, so a completion attributed to the wrong task / with the wrong status shows
+            w = rng.choice([2, 3, 3, 4])
+            n = 2 * w + 1
+            kk2 = lambda: rng.choice(["exp", "cmd"])
+            g = {"n": n, "target": n, "deps": [[] for _ in range(w)] + [[i + 1] for i in range(w)] + [list(range(w + 1, 2 * w + 1))],
+                 "kind": [kk2() for _ in range(2 * w)] + ["group"], "par": [True] * w + [rng.random() < 0.7 for _ in range(w)] + [False],
+                 "cachedTs": [0] * n, "stale": [False] * n, "again": False, "atLeast": False, "now": 1000, "lastTs0": 0}
+            jobs = rng.choice([w, w, w + 1])
+            pkgs = RC.PLACEMENTS[k % len(RC.PLACEMENTS)][:n] if n <= 6 else [""] * n
+            codes, fl = {}, []
+            failing = rng.sample(range(1, w + 1), rng.choice([1, 1, 2]) if w > 1 else 1)
+            for t in failing:
+                codes[RC.ident_of(pkgs, t)] = rng.choice([1, 2, 255, {"signal": 9}])
+            sched = {"seed": rng.randrange(1 << 30), "codes": codes, "fail_launch": [], "p_exit": 0.9,
+                     "p_deliver": rng.choice([0.05, 0.1, 0.2]), "allow_steal": focus == "reap"}
+            stop = False
         if focus == "reap" and rng.random() < 0.3:
             sched["unrelated"] = True
+        if focus == "fail" and k % 5 == 3:
+            # a task cannot be launched while other parallel tasks are still running (first failure = launch failure)
+            w = rng.choice([1, 2, 3])
+            n = w + 3
+            kk3 = lambda: rng.choice(["exp", "cmd"])
+            # r1..rw long-running parallel roots; q quick parallel root; f depends on q and cannot be launched; top groups all
+            g = {"n": n, "target": n, "deps": [[] for _ in range(w)] + [[], [w + 1], list(range(1, w + 1)) + [w + 2]],
+                 "kind": [kk3() for _ in range(w + 2)] + ["group"], "par": [True] * (w + 2) + [False],
+                 "cachedTs": [0] * n, "stale": [False] * n, "again": False, "atLeast": False, "now": 1000, "lastTs0": 0}
+            jobs = w + rng.choice([1, 2])
+            stop = rng.random() < 0.7
+            pkgs = RC.PLACEMENTS[k % len(RC.PLACEMENTS)][:n]
+            sched = {"seed": rng.randrange(1 << 30), "codes": {}, "fail_launch": [RC.ident_of(pkgs, w + 2)],
+                     "p_exit": 0.04, "p_deliver": 0.9, "allow_steal": False}
         scn = RC.scenario_from_graph(g, placement=k, jobs=jobs, stop=stop, sched=sched)
         scn["_n"] = n
         scns.append(scn)
